@@ -27,6 +27,7 @@ RULE = (
     "Sub-check ledger_replug follows ONE EV object through several uses (charge, unplug, "
     "EV.reset(), plug in elsewhere, leading 0 A pilots); in half of the simulations the scheduler "
     "charges the EV copies it can obtain (what-if probing), which must not reach the real batteries. "
+    "In a third of the simulations the run is interrupted at a generated scheduler call, another scheduler object is installed with update_scheduler and the run continued; ledger and peak must hold for the whole recorded trajectory. Battery initial charges include values 1e-4 .. 2e-3 kWh below capacity. "
     "Non-trivial = some session received energy in >= 2 periods and a non-zero pilot was "
     "applied to a vacant station."
 )
@@ -63,10 +64,27 @@ def probe_copies(algo, active, out):
 
 def prop(spec, rec):
     m = sc.Model(spec)
-    h = sc.build_sim(spec)
+    swap = spec.get("swap_scheduler_at")
+    h = sc.build_sim(spec, crash_at=swap)
     if spec.get("probing_scheduler"):
         h.scheduler.post = probe_copies
-    sc.run_sim(h)
+    if swap is None:
+        sc.run_sim(h)
+    else:
+        # the run is interrupted at a scheduler call, the operator installs another scheduler
+        # object (update_scheduler) and continues: the ledger and the peak speak about the whole
+        # recorded trajectory, whoever scheduled it
+        try:
+            sc.run_sim(h)
+        except sc.Crash:
+            pass
+        sched2 = sc.make_scheduler(spec)
+        if spec.get("probing_scheduler"):
+            sched2.post = probe_copies
+        h.sim.update_scheduler(sched2)
+        h.scheduler = sched2
+        sc.run_sim(h)
+        require(h.sim.iteration == m.end and h.sim.event_queue.empty(), "run_completes_after_scheduler_swap", lambda: "iteration %r, model end %r" % (h.sim.iteration, m.end))
     sim = h.sim
     R, P = sim.charging_rates, sim.pilot_signals
     period = spec["period"]
@@ -108,6 +126,10 @@ def prop(spec, rec):
     require(close(total, math.fsum(ev.energy_delivered for ev in h.evs.values()), ab=1e-10), "total_energy_is_sum_over_sessions", "total differs from the sum over sessions")
     if spec.get("probing_scheduler"):
         labels.add("scheduler_charges_its_ev_copies")
+    if swap is not None:
+        labels.add("scheduler_swapped_mid_run")
+        if swap >= 1 and float(agg[:swap].max()) > float(agg[swap:].max() if agg[swap:].size else 0.0):
+            labels.add("peak_before_swap")
     if multi:
         labels.add("multi_period_charging")
     if vacant_pilot:
@@ -169,7 +191,7 @@ def subchecks(tier):
             prop,
             quick=400,
             thorough=30000,
-            floors={"multi_period_charging": 0.271, "pilot_on_vacant_station": 0.2, "noisy_battery_charged": 0.1, "battery_filled": 0.077, "mixed_voltage": 0.3, "fractional_period": 0.05},
+            floors={"multi_period_charging": 0.271, "pilot_on_vacant_station": 0.2, "noisy_battery_charged": 0.1, "battery_filled": 0.077, "mixed_voltage": 0.3, "fractional_period": 0.05, "scheduler_swapped_mid_run": 0.15, "peak_before_swap": 0.03},
             min_nontrivial=20,
         ),
         Given("ledger_replug", replug_cases(), prop_replug, quick=800, thorough=60000, floors={"ev_object_used_again": 0.3, "reset_between_sessions": 0.3}, jobs_quick=2),
@@ -181,6 +203,8 @@ def subchecks(tier):
 def ledger_cases(draw):
     spec = draw(sc.scenarios())
     spec["probing_scheduler"] = draw(st.booleans())
+    if draw(st.integers(0, 2)) == 0:
+        spec["swap_scheduler_at"] = draw(st.sampled_from(sc.Model(spec).invocations))
     return spec
 
 
